@@ -30,10 +30,19 @@ def _repair_mult(vals, p, lo=1, hi=63):
 
 
 @st.composite
-def interior_knots(draw, p, m, style=None):
-    """m interior knots on the grid {1..63}/64, each multiplicity <= p."""
+def interior_knots(draw, p, m, style=None, micro=False):
+    """m interior knots on the grid {1..63}/64, each multiplicity <= p.
+    micro=True: one copy of a repeated knot may be moved up by 2^-24, which creates a valid, non-empty knot span of
+    width 6e-8 (used only by checks that evaluate; knot-editing operations identify knots closer than 1e-7)."""
     if m <= 0:
         return []
+    if micro and m >= 2 and p >= 2 and draw(st.integers(0, 3)) == 0:
+        base = draw(interior_knots(p, m, "coarse"))
+        for i in range(len(base) - 1):
+            if base[i] == base[i + 1] and (i + 2 >= len(base) or base[i + 2] > base[i + 1]):
+                base[i + 1] = base[i + 1] + 2.0 ** -24
+                break
+        return base
     style = style or draw(st.sampled_from(["simple", "coarse", "coarse", "any", "full"]))
     if style == "simple":
         pool = 64
@@ -55,10 +64,10 @@ def interior_knots(draw, p, m, style=None):
 
 
 @st.composite
-def knot_vector(draw, p, n, unclamped=False, style=None):
+def knot_vector(draw, p, n, unclamped=False, style=None, micro=False):
     """Knot vector on [0,1] for degree p and n control points (length n+p+1)."""
     m = n - p - 1
-    inner = draw(interior_knots(p, m, style))
+    inner = draw(interior_knots(p, m, style, micro=micro))
     if not unclamped:
         return [0.0] * (p + 1) + inner + [1.0] * (p + 1)
     # ghost knots: p knots on each side, non-increasing steps on the 1/64 grid, multiplicity at most p+1 at the ends
@@ -127,7 +136,7 @@ def sizes_degrees(draw, pdim, max_p, max_extra, different=False, min_p=1):
 @st.composite
 def spline(draw, kinds=("curve", "surface", "volume"), rational=None, max_p=4, max_extra=4, dims=None,
            unclamped=False, affine_range=False, normalize=None, different=False, distinct=False, kv_style=None,
-           min_p=1, vol_max_p=3, vol_max_extra=2, wmode=None):
+           min_p=1, vol_max_p=3, vol_max_extra=2, wmode=None, micro=False):
     """A full shape definition.
       kind, rational, normalize, degree[], size[], kv[] (as given to the setters), P (flat, library order), W, dim
     """
@@ -138,7 +147,7 @@ def spline(draw, kinds=("curve", "surface", "volume"), rational=None, max_p=4, m
     degs, szs = draw(sizes_degrees(pdim, max_p, max_extra, different=different, min_p=min_p))
     rat = draw(st.booleans()) if rational is None else rational
     uncl = draw(st.booleans()) if unclamped == "maybe" else bool(unclamped)
-    kvs = [draw(knot_vector(p, n, unclamped=uncl, style=kv_style)) for p, n in zip(degs, szs)]
+    kvs = [draw(knot_vector(p, n, unclamped=uncl, style=kv_style, micro=micro)) for p, n in zip(degs, szs)]
     norm = True if normalize is None else (draw(st.booleans()) if normalize == "maybe" else normalize)
     aff = None
     if affine_range:
